@@ -48,7 +48,7 @@ impl Val {
             Val::N(n) => format!("{:?}", n),
         }
     }
-    /// abstract form for trace events: small integers are given as numbers so that the
+    /// abstract form for trace events (numeric view: the sign of a zero is not represented): small integers are given as numbers so that the
     /// specification can recompute them; everything else is an opaque canonical string
     pub fn abstract_json(&self) -> Value {
         const LIM: i64 = 1 << 24;
@@ -56,12 +56,12 @@ impl Val {
         match self {
             Val::I(i) if small(*i) => json!({"t": "int", "v": i}),
             Val::N(Number::Integer(i)) if small(*i) => json!({"t": "Integer", "v": i}),
-            Val::N(Number::Float(x)) if x.fract() == 0.0 && x.abs() < LIM as f64 && !(*x == 0.0 && x.is_sign_negative()) =>
+            Val::N(Number::Float(x)) if x.fract() == 0.0 && x.abs() < LIM as f64 =>
                 json!({"t": "Float", "v": *x as i64}),
-            Val::F(x) if x.fract() == 0.0 && x.abs() < LIM as f64 && !(*x == 0.0 && x.is_sign_negative()) =>
+            Val::F(x) if x.fract() == 0.0 && x.abs() < LIM as f64 =>
                 json!({"t": "int", "v": *x as i64}),
             Val::D(d) if d.scale() == 0 && d.mantissa().abs() < LIM as i128 => json!({"t": "int", "v": d.mantissa() as i64}),
-            Val::C(c) if c.im == 0.0 && !c.im.is_sign_negative() && c.re.fract() == 0.0 && c.re.abs() < LIM as f64 && !(c.re == 0.0 && c.re.is_sign_negative()) =>
+            Val::C(c) if c.im == 0.0 && c.re.fract() == 0.0 && c.re.abs() < LIM as f64 =>
                 json!({"t": "int", "v": c.re as i64}),
             _ => json!({"t": "opaque", "v": self.canon()}),
         }
